@@ -313,7 +313,7 @@ impl Check for C10 {
     fn runs(&self, tier: Tier) -> u64 {
         match tier {
             Tier::Quick => 256 + 800_000,
-            Tier::Thorough => 4 * 256 + 6_000_000,
+            Tier::Thorough => 4 * 256 + 20_000_000,
         }
     }
     fn generate(&self, run_seed: u64, index: u64, tier: Tier) -> Case {
